@@ -10,4 +10,5 @@ import SwcVerif.Model.AlgoRunAssemble
 import SwcVerif.Model.AlgoRunLMeasure
 import SwcVerif.Model.AlgoRunNodeBranch
 import SwcVerif.Model.AlgoRunMst
+import SwcVerif.Model.AlgoRunParse
 /-! all runners of generated definitions (imported by the root module only; the driver imports them one by one) -/
